@@ -53,6 +53,11 @@ def X_orthogonalizer(x1, c=None, x2=None, tol=1e-12, copy=False):
 
         xnew -= (col @ (col.T @ xnew)).astype(xnew.dtype)
 
+    if x2 is None and c is not None:
+        # the column orthogonalized by is zero afterwards; remove its round-off residue,
+        # so that a later norm check does not take it for a non-zero column
+        xnew[:, c] = 0
+
     return xnew
 
 
